@@ -66,6 +66,47 @@ void waitn_cv_note_nodl (void) {
 	}
 	nsync_mu_unlock (&mu);
 }
+void setup_ctr (void) { ctr = nsync_counter_new (1); vf_assume (ctr != 0); }
+
+/* wait on {cv, counter} holding mu; solver-chosen deadline */
+void waitn_cv_ctr (void) {
+	struct nsync_waitable_s w0, w1;
+	struct nsync_waitable_s *ws[2];
+	long ds = (long) (vf_nondet () & 0xff);
+	int r = 0;
+	w0.v = &cv; w0.funcs = &nsync_cv_waitable_funcs;
+	w1.v = ctr; w1.funcs = &nsync_counter_waitable_funcs;
+	ws[0] = &w0; ws[1] = &w1;
+	nsync_mu_lock (&mu);
+	if (!flag) {
+		r = nsync_wait_n (&mu, (void (*) (void *)) &nsync_mu_lock, (void (*) (void *)) &nsync_mu_unlock, nsync_time_s_ns (ds, 0), 2, ws);
+		vf_assert (r >= 0 && r <= 2);
+		if (r == 0) { vf_assert (cv_signalled); }
+		if (r == 1) { vf_assert (nsync_counter_value (ctr) == 0); }
+		if (r == 2) { vf_assert (vf_now_ge (ds, 0)); }
+	}
+	nsync_mu_unlock (&mu);
+}
+/* wait on the counter alone through nsync_wait_n, no mutex, solver-chosen deadline */
+void waitn_ctr (void) {
+	struct nsync_waitable_s w1;
+	struct nsync_waitable_s *ws[1];
+	long ds = (long) (vf_nondet () & 0xff);
+	int r;
+	w1.v = ctr; w1.funcs = &nsync_counter_waitable_funcs;
+	ws[0] = &w1;
+	r = nsync_wait_n (0, 0, 0, nsync_time_s_ns (ds, 0), 1, ws);
+	vf_assert (r == 0 || r == 1);
+	if (r == 0) { vf_assert (nsync_counter_value (ctr) == 0); }
+	if (r == 1) { vf_assert (vf_now_ge (ds, 0)); }
+}
+void final_ready_again_noted (void) {
+	if (nsync_counter_value (ctr) != 0) { nsync_counter_add (ctr, -1); }
+	nsync_mu_lock (&mu);
+	nsync_cv_broadcast (&cv);
+	nsync_mu_unlock (&mu);
+}
+
 void signaller (void) {
 	nsync_mu_lock (&mu);
 	flag = 1;
